@@ -211,3 +211,8 @@ SUITES["C08"]["thorough"] += [dict(_CO)]
 
 # development aid: every world mode at once, all classes reported
 PROP_INFO["X_WORLD"] = dict(X); SUITES["X_WORLD"] = {"quick": [{"family": "world", "mode": m, "share": 1} for m in ("", "nofault", "addpath", "select", "pack")], "thorough": [{"family": "world", "mode": m, "share": 1} for m in ("", "nofault", "addpath", "select")]}
+
+# C08's "encoded as the session negotiated": UPDATEs to 2-octet-AS neighbours (AS_TRANS + AS4_PATH) are produced in
+# the world family; its pack mode also splits one attribute group over several UPDATEs
+SUITES["C08"]["quick"] += [{"family": "world", "mode": "pack", "share": 1}]
+SUITES["C08"]["thorough"] += [{"family": "world", "mode": "pack", "share": 1}, {"family": "world", "mode": "", "share": 1}]
